@@ -1851,4 +1851,25 @@ example : ∃ r, opListF .add .outer Option.none .ij
     [{ idx := [1], cols := [("a", [some 100]), ("b", [some 300])] }] (by decide) (by decide)
   exact ⟨r, h1, h2, h3⟩
 
+/-! ### commutativity for LISTS (open since round r4) -/
+
+/-- **add_ / mul_ of a LIST do not depend on the order of the operands, by value**: for two lists of Series and scalars that are
+permutations of one another (at least two operands, no fill method, any index policy) the two results show the same value at
+EVERY label `t` (`Operand.valAt`: NaN outside the result's index).  Under `ij` / `oj` the indices are the same SET as well
+(`binop_index_inner / _outer`); under `lj` / `rj` the result index is the first / last operand's, so the values agree on the
+labels both results have and are NaN elsewhere.  Proof: `foldl_binop_mixed` + `List.Perm.foldl_eq'` with `appO_right_comm`. -/
+theorem reduce_perm_value (op : Op) (hop : op = .add ∨ op = .mul) (how : How) (x y x' y' : Operand) (xs xs' : List Operand)
+    (hp : (x :: y :: xs).Perm (x' :: y' :: xs')) (r r' : Operand)
+    (h : opList op how Option.none (x :: y :: xs) [] = some r) (h' : opList op how Option.none (x' :: y' :: xs') [] = some r') (t : Int) :
+    r.valAt t = r'.valAt t := by
+  rw [reduce_left op hop, List.append_nil] at h h'
+  cases h; cases h'
+  rw [(foldl_binop_mixed op how x (y :: xs)).2.2 t, (foldl_binop_mixed op how x' (y' :: xs')).2.2 t]
+  have e : ∀ (z : Operand) (zs : List Operand), zs.foldl (fun v s => op.appO v (s.valAt t)) (z.valAt t) =
+      ((z :: zs).map (·.valAt t)).foldl op.appO (some op.neutral) := by
+    intro z zs
+    rw [List.map_cons, ← fold_from_neutral op hop, List.foldl_map]
+  rw [e, e]
+  exact List.Perm.foldl_eq' (hp.map _) (fun a _ b _ v => appO_right_comm op hop v a b) _
+
 end Pyg.Props.C08
